@@ -64,6 +64,9 @@ structure Variant where
       removal leaves the cache as it was (pinned: cells visited before the refusing one have already been
       changed, `shiftFn == nil` is only noticed after the metadata has been shifted) -/
   atomicRemove : Bool := false
+  /-- F29 repaired: `WrapperCache.Remove` asks every wrapped cache first (`canRemove`), so a removal one of
+      them refuses is not carried out in the others (pinned: the caches before the refusing one have changed) -/
+  atomicWrapperRemove : Bool := false
 deriving Repr
 
 structure Cache where
@@ -439,6 +442,13 @@ def wRemove : List Cache → Nat → Int → Int → List Cache × Rm
     match removeV c seq b e with
     | (c1, .ok) => let r := wRemove cs seq b e; (c1 :: r.1, r.2)
     | (c1, r) => (c1 :: cs, r)
+
+/-- `WrapperCache.Remove` of the tree under test: pinned (`wRemove`), or repaired with the pre-check over all
+    wrapped caches (the first refusal is returned, nothing is changed) -/
+def wRemoveV (cs : List Cache) (seq : Nat) (b e : Int) : List Cache × Rm :=
+  match cs.findSome? (fun c => if c.v.atomicWrapperRemove then removeGuard c seq b e else none) with
+  | some r => (cs, r)
+  | none => wRemove cs seq b e
 
 def wSetCausal (cs : List Cache) (ex : List Nat) : List Cache := cs.map (fun c => setCausal c ex)
 
